@@ -10,6 +10,7 @@ import numpy as np
 
 from rv import core, zoo, monitors
 
+ANCHORS = ['start_end', 'high_low', 'ellipse']      # functions the property is anchored in: never entered => inconclusive
 LEVEL = 'exploration'
 LEVEL_TEXT = "Contracts on the three gates with independently computed predicates (extended precision for the ellipse, an epsilon band excluded from the verdict, exact axis vertices that must be kept), gated == data[mask] with metadata, short == long form, refusals; also in situ in the Excel workflow and under the repository's gate tests. Exploration."
 TECHNIQUE = 'runtime contracts on the three gates with independently computed predicates (extended precision for the ellipse)'
